@@ -124,7 +124,7 @@ def check(prop, tier, seed, spec):
         # its inline stack; the site is the innermost frame that is not one of the generic mask helpers
         fb = [(fn.split("<")[0], loc) for fn, loc in msym.get(d["first"][3], []) if "/leak/src/" not in loc]
         fw = [(fn.split("<")[0], loc) for fn, loc in msym.get(d["first"][4], []) if "/leak/src/" not in loc]
-        crate = [(fn, loc) for fn, loc in fb if "/src/const_choice.rs" not in loc and "/src/limb/cmp.rs" not in loc and "/rustc/" not in loc and "/subtle" not in loc]
+        crate = [(fn, loc) for fn, loc in fb if "/src/const_choice.rs" not in loc and "/src/limb/cmp.rs" not in loc and "/src/uint/cmp.rs" not in loc and "/src/limb/bit_" not in loc and "/rustc/" not in loc and "/subtle" not in loc]
         site = crate[0][0] if crate else (fb[0][0] if fb else "?")
         e = dict(p="C01", op="leak", form=per_class[r["cls"]][0], cls=r["cls"], si=d["si"], k="ok", level="machine",
                  site=site, site_loc=[loc for _, loc in fb] + [loc for _, loc in fw[:1]], sites=[fn for fn, _ in fb],
